@@ -111,6 +111,29 @@ func recvKind(e ast.Expr) string {
 	}
 }
 
+// hmShape classifies the body of a heap manager request method: "send" when it is straight-line code whose
+// only communication is one blocking send on the manager's channel (no select, no go statement, no loop)
+func hmShape(fd *ast.FuncDecl) string {
+	sends, other := 0, false
+	ast.Inspect(fd.Body, func(n ast.Node) bool {
+		switch x := n.(type) {
+		case *ast.SendStmt:
+			if text(x.Chan) == fd.Recv.List[0].Names[0].Name {
+				sends++
+			} else {
+				other = true
+			}
+		case *ast.SelectStmt, *ast.GoStmt, *ast.ForStmt, *ast.RangeStmt, *ast.FuncLit:
+			other = true
+		}
+		return true
+	})
+	if sends == 1 && !other {
+		return "send"
+	}
+	return "other"
+}
+
 func isDoneKind(k string) bool { return k == "KDone" || k == "KCtxDone" || k == "KBsOk" }
 
 func main() {
@@ -123,6 +146,7 @@ func main() {
 	sort.Strings(files)
 	var sels []sel
 	var spawns []spawn
+	var hmShapes [][2]string
 	consts := map[string]string{}
 	for _, path := range files {
 		base := filepath.Base(path)
@@ -148,6 +172,9 @@ func main() {
 				continue
 			}
 			recv, name := recvName(fd), fd.Name.Name
+			if recv == "heapManager" && name != "run" {
+				hmShapes = append(hmShapes, [2]string{name, hmShape(fd)})
+			}
 			depth := 0
 			var walk func(n ast.Node) bool
 			walk = func(n ast.Node) bool {
@@ -181,6 +208,10 @@ func main() {
 						}
 					}
 					sels = append(sels, s)
+				case *ast.IncDecStmt:
+					if recv == "pState" && name == "render" && text(x.X) == "height" && x.Tok == token.DEC {
+						consts["heightAdjust"] = "-1"
+					}
 				case *ast.KeyValueExpr:
 					if id, ok := x.Key.(*ast.Ident); ok && id.Name == "popPriority" {
 						consts["popPriority"] = text(x.Value)
@@ -229,6 +260,15 @@ func main() {
 		fmt.Fprintf(&b, "  (%q, %q, %q)%s\n", s.file, s.fn, s.what, sep)
 	}
 	b.WriteString("].\n\n")
+	b.WriteString("(* request methods of the heap manager: (name, shape) *)\nDefinition hm_methods : list (string * string) := [\n")
+	for i, h := range hmShapes {
+		sep := ";"
+		if i == len(hmShapes)-1 {
+			sep = ""
+		}
+		fmt.Fprintf(&b, "  (%q, %q)%s\n", h[0], h[1], sep)
+	}
+	b.WriteString("].\n\n")
 	popInit := "0"
 	switch consts["popPriority"] {
 	case "math.MinInt32":
@@ -238,6 +278,11 @@ func main() {
 	}
 	fmt.Fprintf(&b, "Definition gen_pop_priority_init : Z := %s%%Z.\n", popInit)
 	fmt.Fprintf(&b, "Definition gen_pop_priority_src : string := %q.\n", consts["popPriority"])
+	adj := consts["heightAdjust"]
+	if adj == "" {
+		adj = "0"
+	}
+	fmt.Fprintf(&b, "(* rows kept on a terminal = reported height + this *)\nDefinition gen_terminal_height_adjust : Z := (%s)%%Z.\n", adj)
 	fmt.Fprintf(&b, "Definition gen_default_refresh_rate : string := %q.\n", consts["defaultRefreshRate"])
 	if old, err := os.ReadFile(out); err == nil && string(old) == b.String() {
 		return // unchanged: keep the timestamp so that nothing is rebuilt
